@@ -26,9 +26,32 @@ PERR_CLASS = {
 }
 
 
-async def _read_all(stream: bytes, cuts, lazy, max_calls, stats=None):
+def _frame_fields(f):
+    """never raises: reading a delivered frame's fields may raise on a modified tree (that is judged where the fields are used)"""
+    try:
+        return (int(f.frame_type), int(f.recipient), int(f.sender), int(f.econet_type), int(f.econet_version), hexs(f.message))
+    except Exception as e:  # noqa: BLE001
+        return ("!" + type(e).__name__,)
+
+
+def check_fresh(kept, problems):
+    """kept: [(call index, frame object, fields read at delivery)] of ONE reader, all still alive.  Appends to `problems`
+    (call index, what, detail): an object handed out twice; a delivered frame whose fields changed after later reads."""
+    seen = {}
+    for i, f, at_delivery in kept:
+        if id(f) in seen:
+            problems.append((i, "same-object", dict(earlier_call=seen[id(f)], fields=list(at_delivery))))
+        else:
+            seen[id(f)] = i
+        now = _frame_fields(f)
+        if now != at_delivery:
+            problems.append((i, "changed-after-delivery", dict(at_delivery=list(at_delivery), later=list(now))))
+
+
+async def _read_all(stream: bytes, cuts, lazy, max_calls, stats=None, fresh=None):
     sr = asyncio.StreamReader()
     fr = FrameReader(sr)
+    kept = []
     chunks = []
     prev = 0
     for c in list(cuts) + [len(stream)]:
@@ -101,6 +124,8 @@ async def _read_all(stream: bytes, cuts, lazy, max_calls, stats=None):
                 out.append(("D", int(f.frame_type), int(f.recipient), int(f.sender), int(f.econet_type),
                             int(f.econet_version), payload, n,
                             type(f).__name__))
+                if fresh is not None:
+                    kept.append((len(out) - 1, f, _frame_fields(f)))
         elif isinstance(exc, ProtocolError):
             out.append(("E", type(exc).__name__, n))
         elif isinstance(exc, asyncio.TimeoutError):
@@ -112,13 +137,16 @@ async def _read_all(stream: bytes, cuts, lazy, max_calls, stats=None):
         else:
             out.append(("X", type(exc).__name__, n))
             break
+    if fresh is not None:
+        check_fresh(kept, fresh)
     return out
 
 
-def read_all(stream: bytes, cuts=(), lazy=False, max_calls=None, stats=None):
+def read_all(stream: bytes, cuts=(), lazy=False, max_calls=None, stats=None, fresh=None):
+    """fresh: a list -> every delivered frame object is kept alive to the end of the stream and checked by check_fresh"""
     if max_calls is None:
         max_calls = len(stream) + 2
-    return vloop.run(_read_all(bytes(stream), cuts, lazy, max_calls, stats))
+    return vloop.run(_read_all(bytes(stream), cuts, lazy, max_calls, stats, fresh))
 
 
 def parse_model(line):
